@@ -60,5 +60,13 @@ def write():
 k("C10", "exclude|*|*|d-has-items-not-in-c|extra-items|*", "exclude(d) also appends the items of d that are not in c (symmetric difference): (1).exclude(2) = (1, 2). The behaviour is asserted by the repository's TestExclude, so it is recorded, not repaired", {"src": "%c.exclude(%d)", "c": "(1)", "d": "(2)", "got": "[1, 2]", "want": "[1]"})
 FIXED.append("fixed: property=C10 " + "e88ae68" + " (cA).intersect(cA) returned [nil], (1).intersect(1.0) returned the argument's 1.0, duplicate Decimals were kept")
 
+FIXED.append('fixed: property=C17 2577201 %`a` and %\'a\' looked up a constant named with its quotes; `div` was looked up as the field "`div`" (also C02)')
+FIXED.append('fixed: property=C01 5fcd550 1.power(2147483647) did not terminate (int32 loop counter never exceeds MaxInt32)')
+FIXED.append('fixed: property=C09 6c0a978 @T08 + 2 hours stayed @T08; @2020-01-01T10 - 2 hours gave T09 (d / unit instead of truncation)')
+FIXED.append('fixed: property=C09 ff35142 x + 5 milliseconds failed: the plural keyword was not a time-valued unit')
+FIXED.append('fixed: property=C09 faa31f5 @2020 + 365 days stayed @2020; @2019-01 + (-1 week) gave @2018-12; (x - q) + q != x for partial precisions')
+FIXED.append('fixed: property=C09 9c65909 @2020-01-01T00:00:00 - 1 millisecond gave 23:59:59 of the previous day')
+FIXED.append("fixed: property=C09 856b35d (@T23 + 2 hours) = @T01 was false: the wrapped Time carried the next day's date")
+
 if __name__ == '__main__':
     write()
